@@ -39,6 +39,14 @@ func c06Gen(seed uint64, run int, tier string) *Case {
 	c.Cfg["nframes"] = int64(r.Range(5, 30))
 	c.Cfg["wait"] = int64(r.Pick(0, 1, 1))
 	c.Stratum = []string{"script", "ufs"}[run%2] + "/" + []string{"grammar", "mutation", "raw-bytes"}[run/2%3]
+	if run%40 == 13 || run%40 == 33 {
+		// two directed sessions on Ufs: very many users; a directory that changes under a fid that lists it
+		c.Cfg["ufs"], c.Cfg["gen"], c.Cfg["directed"] = 1, 3, int64(1+run%40/20)
+		c.Cfg["msize"], c.Cfg["smsize"], c.Cfg["dotu"], c.Cfg["sdotu"], c.Cfg["wait"] = 8192, 8192, 1, 1, 1
+		c.Cfg["maxsteps"] = 4000000
+		c.Stratum = "ufs/directed-" + []string{"", "many-users", "directory-changes-under-a-fid"}[c.Cfg["directed"]]
+		return c
+	}
 	if run%2 == 1 && run/6%2 == 1 {
 		// the file system misbehaves too: os / syscall calls of Ufs fail at random
 		c.Cfg["osrate"] = int64(r.Pick(20, 60, 200))
@@ -249,12 +257,12 @@ func c06Exec(x *Ctx) {
 			}
 		}
 		// a valid prefix so that later requests meet fids in real states
-		if gen != 2 && r.Pct(85) {
+		if gen == 3 || (gen != 2 && r.Pct(85)) {
 			ver := "9P2000"
 			if dotu {
 				ver = "9P2000.u"
 			}
-			if r.Pct(35) {
+			if gen != 3 && r.Pct(35) {
 				// a negotiation ladder first: msize down, up, down ... before the session proper
 				for k := r.Range(1, 3); k > 0; k-- {
 					before := len(p.Recv)
@@ -290,6 +298,54 @@ func c06Exec(x *Ctx) {
 			eff = msize
 		}
 		n := int(c.cfg("nframes"))
+		if gen == 3 {
+			n = 0
+			ask := func(m *Msg) *Recvd { // one request, wait for its reply (or the end of the connection)
+				before := len(p.Recv)
+				p.WriteRaw(Encode(m, p.Dotu))
+				for y := 0; y < 400 && len(p.Recv) == before && !p.EOF; y++ {
+					rt.Yield(rt.SiteActor)
+				}
+				if len(p.Recv) > before {
+					return p.Recv[len(p.Recv)-1]
+				}
+				return nil
+			}
+			switch c.cfg("directed") {
+			case 1:
+				// more users than any table is likely to be sized for, then objects owned by yet another one
+				for k := 0; k < 1100 && !p.EOF; k++ {
+					ask(&Msg{Type: Tattach, Tag: uint16(100 + k), Fid: uint32(1000 + k), Afid: NOFID, Uname: "x", Aname: "", Nuname: uint32(70000 + k)})
+				}
+				os.Chown(filepath.Join(u.Root, "file"), 64242, 64243)
+				os.Chown(filepath.Join(u.Root, "sub", "file"), 64244, 64245)
+				ask(&Msg{Type: Tstat, Tag: 7, Fid: 2})
+				ask(&Msg{Type: Tread, Tag: 8, Fid: 1, Offset: 0, Count: 4000})
+				x.Probe("1100-users-attached")
+			case 2:
+				dd := filepath.Join(u.Root, "dd")
+				os.MkdirAll(dd, 0o755)
+				for k := 0; k < 8; k++ {
+					os.WriteFile(filepath.Join(dd, string(rune('a'+k))), nil, 0o644)
+				}
+				ask(&Msg{Type: Twalk, Tag: 7, Fid: 0, Newfid: 10, Wname: []string{"dd"}})
+				ask(&Msg{Type: Topen, Tag: 8, Fid: 10, Mode: 0})
+				xoff := uint64(0)
+				if rr := ask(&Msg{Type: Tread, Tag: 9, Fid: 10, Offset: 0, Count: 4000}); rr != nil && rr.M != nil && rr.M.Type == Rread {
+					xoff = uint64(len(rr.M.Data))
+				}
+				for k := 0; k < 8; k++ {
+					os.Remove(filepath.Join(dd, string(rune('a'+k))))
+				}
+				for k := 0; k < 3; k++ {
+					os.WriteFile(filepath.Join(dd, strings.Repeat(string(rune('p'+k)), 200)), nil, 0o644)
+				}
+				ask(&Msg{Type: Tread, Tag: 10, Fid: 10, Offset: 0, Count: 10}) // too small: refused, the listing is rebuilt all the same
+				ask(&Msg{Type: Tread, Tag: 11, Fid: 10, Offset: xoff, Count: 4000})
+				ask(&Msg{Type: Tread, Tag: 12, Fid: 10, Offset: 0, Count: 4000})
+				x.Probe("directory-changed-under-a-listing-fid")
+			}
+		}
 		for i := 0; i < n && !p.EOF; i++ {
 			switch gen {
 			case 0:
